@@ -168,10 +168,13 @@ def evidence(agg, tier, seed, wall, batches):
     coverage = {
         "evaluations": agg["nruns"],
         "distinct_nontrivial": len(agg["nontrivial"]),
-        "rule": "one evaluation = one simulated history (2-4 caller sessions, <=60 steps, interleaved by the seeded scheduler) "
-                "executed in a forked world; every call's answer compared with the same expression evaluated alone in a "
-                "pristine fork (I1), operands' structural snapshot before/after (I2, confirmed observationally), end-state "
-                "observation of every root (I3). distinct = distinct sha256 of (object recipes, step list); non-trivial = "
+        "rule": "one evaluation = one simulated history executed in a forked world. Plan styles (seed-chosen): focused chains 30%, "
+                "covering walk of every operation of one kind 22%, repeat-op / query thrash 13%, cursor duel 7%, inheritance probe "
+                "(all argument-less questions on X, up to 8 derivations, all questions on each) 10%, mixed 2-4 interleaved sessions 18%; "
+                "echo steps (same question again) and lazily consumed iterator answers (cursor open/resume/drain) are woven in. "
+                "Every call's answer - or the slice of an iterator answer taken in that step - is compared with the same expression "
+                "evaluated alone in a pristine fork (I1); operands' structural snapshot and the caller's argument values before/after "
+                "(I2, operand changes confirmed observationally); end-state observation of every root (I3). distinct = distinct sha256 of (object recipes, step list); non-trivial = "
                 ">=5 compared answers AND at least one fault fired (flood that evicted, gc, foreign build) or an object "
                 "interrogated by >=2 sessions.",
         "samples": sample_plans(seed),
